@@ -695,7 +695,14 @@ class TidemanAlternative:
     def get_winner_set(self,
                        votes: Dict[RankedVoteType, int],
                        ) -> List[Candidate]:
-        return self.set_selector.evaluate(RANKED_TO_CONDORCET.convert(votes))
+        winner_set = self.set_selector.evaluate(
+            RANKED_TO_CONDORCET.convert(votes)
+        )
+        if not winner_set:
+            # no pairwise contest (a single candidate, or nobody ranked above
+            # anybody else): nobody is dominated
+            winner_set = votelib.util.all_ranked_candidates(votes)
+        return winner_set
 
 
 def eliminate_one(votes: Dict[RankedVoteType, int]) -> List[Candidate]:
@@ -733,6 +740,10 @@ class Benham:
     def get_condorcet_winner(self,
                              votes: Dict[RankedVoteType, int],
                              ) -> Optional[Candidate]:
+        candidates = votelib.util.all_ranked_candidates(votes)
+        if len(candidates) == 1:
+            # a single candidate has no pairwise contest to win
+            return candidates[0]
         condores = self.CONDO.evaluate(RANKED_TO_CONDORCET.convert(votes))
         return condores[0] if condores else None
 
